@@ -5,8 +5,28 @@ the exact duration (saturating).  Property theorems only.
 -/
 import ConfModel.Lemmas.ServerTimeout
 import ConfModel.Lemmas.ServerChecks
+import ConfModel.Generated.C12Facts
 namespace ConfModel.Props.C12
 open ConfModel.ServerTimeout ConfModel.ServerChecksSpec
+
+/-! ## The finite tables of `extractTimeout`, regenerated from the code on every run -/
+
+set_option maxRecDepth 100000 in
+/-- the bytes accepted as unit are exactly the model's `H M S m u n` -/
+theorem unit_table :
+    Generated.C12.unitTable = (List.range 256).map (fun n => (unitOf (UInt8.ofNat n)).isSome) := by decide
+
+/-- the accepted digit counts are exactly 1..10 (Connect) and 1..8 (gRPC, gRPC-Web) -/
+theorem digit_limits :
+    Generated.C12.connectLengths = (List.range 25).map (fun n => decide (1 ≤ n ∧ n ≤ 10)) ∧
+    Generated.C12.grpcLengths = (List.range 25).map (fun n => decide (1 ≤ n ∧ n ≤ 8)) ∧
+    Generated.C12.grpcWebLengths = (List.range 25).map (fun n => decide (1 ≤ n ∧ n ≤ 8)) := by decide
+
+/-- the duration of one unit is the model's -/
+theorem unit_nanos :
+    Generated.C12.unitNanos = [(72, Unit.nanos .H), (77, Unit.nanos .M), (83, Unit.nanos .S),
+      (109, Unit.nanos .m), (110, Unit.nanos .n), (117, Unit.nanos .u)] ∧
+    Generated.C12.connectUnitNanos = 1000000 := by decide
 
 /-! ## Timeout header: grammar and value (all byte strings, no length bound) -/
 
